@@ -7,25 +7,25 @@ ids = [p['id'] for p in props]
 
 # id -> (category, technique, level text, level note, design ref)
 CLAIMED = {
- 'C18': ('exploration', 'reference-model monitor (exact rational arithmetic) over boundary + random inputs',
+ 'C18': ('exploration', 'reference-model monitor (exact rational arithmetic) over boundary + random inputs over the whole uint64 range; process-level monitors of the start-up refusal and of the real disk watchdog (pause / resume cycles, slow worker, repeated low-disk episodes)',
          'Differential oracle: every decision of the real checkThreshold is compared with an exact math/big reference on a boundary grid and seeded random triples, plus a monotonicity scan; held = no disagreement on what was explored.',
          'Trusts the 20-line reference written from the statement; inputs bounded by free <= total < 2^63.', '4/C18'),
 
  'C09': ('exploration', 'differential monitor on generated/mutated URL texts: repeated evaluation in fresh objects, idempotence, shape oracle (net/url), independent RFC 3986 resolver',
          'Every generated (text,parent) is normalised 8 times in fresh objects by the real NormalizeURL/URL.String; determinism, idempotence, result shape, relative resolution and query order/multiplicity are checked by oracles that never call the code under test.',
          'Reference resolver applies to an unreserved alphabet where RFC 3986 and WHATWG agree; inputs are sampled, not enumerated.', '4/C09'),
- 'C11': ('exploration', 'stateless systematic enumeration of pipeline-shaped operation histories on the real model + invariant/oracle at every stage hand-off',
+ 'C11': ('exploration', 'stateless systematic enumeration of pipeline-shaped operation histories on the real model + invariant/oracle at every stage hand-off; exhaustive small trees x statuses (completion) and x leaf URLs (de-duplication)',
          'All choice vectors of the stage-operation generator within a small scope (exhaustive flag in evidence), random vectors on scopes to 200 nodes, and all small trees x status assignments; structure, CheckConsistency, dedupe (one node per URL, no URL lost) and completion iff nothing pending are asserted after every step.',
          'The operation generator mirrors which model calls the stages make in the pinned code; exhaustive only within the stated scope.', '4/C11'),
 
- 'C12': ('exploration', 'linearizability checking (porcupine) of client-boundary histories of the real reactor + quiescent token/tracked/delivery invariants; race-detector builds for a quarter of the children',
+ 'C12': ('exploration', 'linearizability checking (porcupine) of client-boundary histories of the real reactor + quiescent token/tracked/delivery invariants; bulk runs over the token-count axis (1..20000) with a deadlock (no-progress) monitor; race-detector builds for a quarter of the children',
          'Thousands of short concurrent histories (producers, workers, consumer, freeze/stop controller, hook-point schedule perturbation) are recorded at the API boundary and checked against a strict sequential model; token accounting, capacity and delivery conservation are asserted at quiescence.',
          'Schedules are sampled, not enumerated; clients follow the pipeline discipline (only a held seed is fed back / finished) plus deliberate unknown ids and repeated finishes.', '4/C12'),
  'C17': ('exploration', 'linearizability checking (porcupine) of concurrent histories on the real stats primitives + exact quiescent totals after bulk bursts; race detector; hook-point perturbation inside the two-word mean',
          'Histories from 8-32 goroutines on counter / rate total / mean / per-key bucket checked against sequential models, bulk bursts with exact totals, half of the children under the race detector (a race report in the stats primitives is a violation).',
          'Unit level + pipeline level (counters against the hook events of full-pipeline runs); mid-burst reads of the mean are unconstrained.', '4/C17'),
 
- 'C13': ('exploration', 'online reference-model monitor on the hook event stream of the real token bucket under a virtual clock; concurrent waiters; race detector',
+ 'C13': ('exploration', 'online reference-model monitor on the hook event stream of the real token bucket under a virtual clock; concurrent waiters; race detector; manager-level scenarios on the real clock with one-sided bounds (bucket leaving the table while a request is in flight, first contact from many goroutines at once, active host across cleanup ticks); arrival-time monitor at the origin in pipeline runs',
          'Every state change of the real bucket is reported under its own mutex with the time the code used; the monitor replays the most permissive bucket the statement allows and checks window bound, token range, rate bounds, penalty rule and the direction of rate changes on each event.',
          'Per bucket lifetime (no LFU eviction); event sequences are seeded samples; penalty rule is the lower bound implied by the statement.', '4/C13'),
 
@@ -44,19 +44,19 @@ CLAIMED = {
          'Histories of 30-50 seeds with heavily overlapping assets (10 URLs x 8 spellings, nested assets, redirects, pool URLs reused as seeds), sequential and with 4-8 seeds in flight; a check that started after another check of the same URL ended must be skipped (modulo seed-over-asset promotion), a skipped item needs a check that could have recorded it, and no URL is fetched by two non-seed nodes of a tree.',
          'Local LevelDB store at stage level; crawl-HQ store through full-pipeline HQ-mode runs against an HQ double; pool spellings are from a safe alphabet.', '4/C08'),
 
- 'C10': ('exploration', 'crash / CPU-and-memory-budget oracle over hostile responses served to the real preprocessor+postprocessor stages in isolated child processes (structure-aware generation + mutation of valid samples); AddressSanitizer build for the cgo URL parser on hostile URL texts',
+ 'C10': ('exploration', 'crash / CPU-and-memory-budget oracle over hostile responses served to the real preprocessor+postprocessor stages in isolated child processes (structure-aware generation incl. the full HLS tag vocabulary and site-specific key vocabularies + mutation of valid samples; configuration as part of the input); AddressSanitizer build for the cgo URL parser on hostile URL texts',
          'Each input is regenerable from (seed, index); the index is written to disk before the input is processed, so a panic anywhere in the (recover-less) stage workers or a spin beyond the CPU/memory budget is attributed to its input; hangs are confirmed alone with 5x the budget unless they match a listed finding.',
          'Inputs are sampled (no coverage guidance in the quick tier); "forever" is a CPU/memory budget; listed finding: pdfcpu loops forever on some mutated PDFs (third party, no small fix).', '4/C10'),
 
- 'C14': ('exploration', 'enumeration of all call orders (bounded length) of pause/resume/stop/feed against the real stage workers, one child process per script, plus random concurrent scripts under hook-point perturbation and the race detector; structural-quiescence (stuck) oracle with goroutine dumps',
+ 'C14': ('exploration', 'enumeration of all call orders (bounded length) of pause/resume/stop/feed against the real stage workers, one child process per script, plus random concurrent scripts under hook-point perturbation and the race detector; full-pipeline runs with pauses fired by triggers in the middle of stage hand-overs and the real disk watchdog as pausing controller; structural-quiescence (stuck) oracle with goroutine dumps',
          'The real preprocessor/postprocessor/finisher workers are the subscribers; every script ends with a verdict at quiescence: all invoked calls returned, no panic, no work taken between a worker\'s acknowledgement and its resume, no acknowledged worker left blocked by a Resume that returned.',
-         'Stage level (archiver stage and watchdogs are covered by the pipeline-level stop matrix when built); call orders enumerated to the stated length, interleavings inside the stages sampled; stuck = no event and no return over three samples.', '4/C14'),
+         'Call orders at stage level, back-pressure between stages and the disk watchdog at pipeline level (stop while paused: also C03); call orders enumerated to the stated length, interleavings inside the stages sampled; stuck = no event and no return over three samples.', '4/C14'),
 
- 'C01': ('exploration', 'offline exactly-once / ordering checker over the hook event log of full-pipeline runs + in-line tree assertion at the finish notification + quiescent reactor invariants; configuration matrix, seeded schedule perturbation, race-detector sample',
+ 'C01': ('exploration', 'offline exactly-once / ordering checker over the hook event log of full-pipeline runs + in-line tree assertion at the finish notification + quiescent reactor invariants + site-model obligations over the origin log (every URL of a delivered tree and every queued seed requested, finished rows gone from the queue database); configuration matrix incl. asynchronous WARC writing, seeded schedule perturbation, race-detector sample',
          'The whole real pipeline (controler.Start, local queue, WARC writing, real HTTP against a scripted origin on loopback) processes generated sites; per run the event log (total order) must show exactly one finish notification per accepted seed, none for unknown seeds, no stage/archiver activity for a seed after its notification, no node awaiting fetch/post-processing at the notification, an empty reactor at quiescence.',
          'Schedules sampled; quiescence = 6.5 s without hook events or open origin requests; seeds enter through hubs (input seeds) and the real LQ.', '4/C01'),
 
- 'C02': ('exploration', 'in-line monitor at the finish notification: independent WARC reader over the job files joined with the origin log through archiver hook events (responses received per seed and URL); byte identity by SHA-1 and length; configuration matrix',
+ 'C02': ('exploration', 'in-line monitor at the finish notification: independent WARC reader over the job files joined with the origin log through archiver hook events (responses received per seed and URL); byte identity by SHA-1 and length; configuration matrix incl. SOCKS5 proxy; a quarter of the runs stopped gracefully in mid-flight under the same monitor',
          'At the instant a seed is about to be acknowledged to the queue, every response the archiver received for it and the discard policy accepts must be visible in the WARC files as request + response/revisit records for exactly that URL with the payload the origin sent; rejected responses must be absent; every gzip member must hold exactly one well-formed record.',
          'Synchronous WARC mode; bodies/encodings/framings/statuses sampled by a generator around the sniff, dedupe and spool thresholds; origin and crawler in one process on loopback.', '4/C02'),
 
@@ -64,7 +64,7 @@ CLAIMED = {
          'Every run stops the real pipeline (controler.Stop or a real SIGTERM through WatchSignals) at a moment defined by the k-th occurrence of a pipeline event, including with some/all workers paused; the process must exit 0 without panic, leave no .open file and only complete records, and must not become quiescent with the stop outstanding.',
          'Moments and configurations are enumerated from a fixed list (quick samples the 64-point matrix, thorough covers it); origin delays bounded so that 20 s after the request only timers remain; HQ source not in this matrix.', '4/C03'),
 
- 'C04': ('fault_enumeration', 'kill / stop injection at instrumented points (the hook handler SIGKILLs its own process at the n-th hit) and at seeded random times, restart on the same job directory; parent-side oracle over lq.db rows, the origin log of both runs, the write-through event log and the WARC files left on disk',
+ 'C04': ('fault_enumeration', 'kill / stop injection at instrumented points (the hook handler SIGKILLs its own process at the n-th hit) and at seeded random times, restart on the same job directory; parent-side oracle over lq.db rows, the origin log of both runs, the write-through event log and the WARC files left on disk; plus Add/Get/Delete histories on the real sqlite queue re-opened after 0-1100 ms, checked against a sequential reference model across restarts',
          'Each pair (run 1 dies, run 2 restarts) is judged by set algebra: every valid row present at the death must be requested in run 2 and be gone at its quiescence; every row deleted before the death must have a matching complete response record in the files run 1 left; those files must parse record by record up to a single trailing partial member.',
          'A killed process, not a killed machine; kill points are the hook points of the claim/insert/fetch/feedback/finish/delete/add paths x occurrence; listed finding: in-progress seeds are skipped as seen after a restart when the local seencheck is on.', '4/C04'),
 
@@ -72,11 +72,11 @@ CLAIMED = {
          'Endless redirect chains (seed and asset level), loops, endlessly nested JSON/XML/M3U8, self references and always-failing URLs are served to the real pipeline; no chain position beyond max-redirect, no nesting level beyond 3, no retry index beyond max-retry, no more than 4*(max-redirect+1) reactor passes may be observed and every seed must finish; outlink hops are compared with the rule of the statement for every generated outlink.',
          'Parameter values and server behaviours are a fixed generated family; depth rule only with domains-crawl off.', '4/C06'),
 
- 'C15': ('fault_enumeration', 'delivery monitor over the request log of a crawl-HQ double with a scripted fault sequence (5xx, reset, stall on the k-th add/delete/get) driven by the real pipeline and the real gocrawlhq client; local-queue variant over hook events and lq.db',
+ 'C15': ('fault_enumeration', 'delivery monitor over the request log of a crawl-HQ double with a scripted fault sequence (5xx, reset, stall on the k-th add/delete/get) and add/delete outages that enumerate the number of pending deliveries, driven by the real pipeline and the real gocrawlhq client; local-queue variant over hook events and lq.db',
          'Obligations are known by construction (planted outlinks of crawled pages below the hop limit, seeds handed out): at structural quiescence with the fault script exhausted each must have been carried by a successful call with value, via and hop path intact, ids acknowledged, hops surviving the round trip; in LQ mode rows carry value/via/hops, no URL is handed out twice, finished rows are gone.',
          'Fault scripts are seeded samples of finite sequences; the double mirrors the endpoints/status codes of the pinned client, not the real service.', '4/C15'),
 
- 'C16': ('exploration', 'in-process footprint probes (goroutines, /proc/self/fd by class, temp dir, reactor and limiter shims) at two structurally quiescent points of one pipeline lifetime, after N and after 4N seeds',
+ 'C16': ('exploration', 'in-process footprint probes (goroutines, /proc/self/fd by class, temp dir, reactor and limiter shims) at two structurally quiescent points of one pipeline lifetime, after N and after 4N seeds; manager-level stress of the limiter table bound under concurrent first contacts',
          'The real pipeline processes a mix that exercises every release path (2 MiB+ spooled bodies, always-503 with retries, resets, redirects, 404s, JSON assets, more hosts than limiter buckets); the two stable footprints must agree, no temp file or tracked seed may remain, the limiter table must stay within its bound.',
          'Growth is judged between N and 4N only (N up to 100 in the thorough tier); origin in the parent process; LevelDB/log descriptors are classed apart.', '4/C16'),
 }
